@@ -79,7 +79,7 @@ std::string run_op(std::vector<std::string> const& w, std::string const& path, I
         return r + (frame_intact<CB>(gil::view(big), 2, 2, vw, vh, gil::view(ref)) ? " canary-ok" : " canary-damaged"); }
     return "bad-op"; }
 
-template <typename Tag, typename Nat, int CB, typename Dst, typename Info>
+template <typename Tag, typename Nat, int CB, typename Dst, int DCB, typename Info>
 std::string run_conv(std::vector<std::string> const& w, std::string const& path, Info const& info) {
     auto I = [&](size_t k) { return (int)hv::to_ll(w[k]); };
     int W = I(4), H = I(5);
@@ -88,21 +88,25 @@ std::string run_conv(std::vector<std::string> const& w, std::string const& path,
     auto st = settings<Tag>(I(7), I(8), I(9), I(10));
     Nat nat; std::string r = "nat " + attempt([&] { gil::read_image(path, nat, st); return show<CB>(nat); });
     bool ok = r != "nat err:io";
-    r += " | conv " + attempt([&] { Dst d; gil::read_and_convert_image(path, d, st); return show<1>(d); });
+    r += " | conv " + attempt([&] { Dst d; gil::read_and_convert_image(path, d, st); return show<DCB>(d); });
     if (!ok) return r + " | ref err:io | cview err:io canary-ok";
-    Dst ref(nat.dimensions()); gil::copy_and_convert_pixels(gil::const_view(nat), gil::view(ref)); r += " | ref " + show<1>(ref);
+    Dst ref(nat.dimensions()); gil::copy_and_convert_pixels(gil::const_view(nat), gil::view(ref)); r += " | ref " + show<DCB>(ref);
     int iw = (int)nat.width(), ih = (int)nat.height();
     Dst big(iw + 4, ih + 4); paint(gil::view(big), 0xC3); Dst keep(big);
     auto v = gil::subimage_view(gil::view(big), 2, 2, iw, ih);
-    std::string cv = attempt([&] { gil::read_and_convert_view(path, v, st); return show_view<1>(v); });
-    return r + " | cview " + cv + (frame_intact<1>(gil::view(big), 2, 2, iw, ih, gil::view(keep)) ? " canary-ok" : " canary-damaged"); }
+    std::string cv = attempt([&] { gil::read_and_convert_view(path, v, st); return show_view<DCB>(v); });
+    return r + " | cview " + cv + (frame_intact<DCB>(gil::view(big), 2, 2, iw, ih, gil::view(keep)) ? " canary-ok" : " canary-damaged"); }
 
 template <typename Tag, typename Nat, int CB, typename Info>
 std::string go(std::vector<std::string> const& w, std::string const& path, Info const& info) {
     if (w[0] == "xconv") {
-        if (w[6] == "gray8") return run_conv<Tag, Nat, CB, gil::gray8_image_t>(w, path, info);
-        if (w[6] == "rgb8") return run_conv<Tag, Nat, CB, gil::rgb8_image_t>(w, path, info);
-        if (w[6] == "rgba8") return run_conv<Tag, Nat, CB, gil::rgba8_image_t>(w, path, info);
+        if (w[6] == "gray8") return run_conv<Tag, Nat, CB, gil::gray8_image_t, 1>(w, path, info);
+        if (w[6] == "rgb8") return run_conv<Tag, Nat, CB, gil::rgb8_image_t, 1>(w, path, info);
+        if (w[6] == "rgba8") return run_conv<Tag, Nat, CB, gil::rgba8_image_t, 1>(w, path, info);
+#if C12_SEL == 4      // 16-bit destinations: instantiated for jpeg only (compile time)
+        if (w[6] == "gray16") return run_conv<Tag, Nat, CB, gil::gray16_image_t, 2>(w, path, info);
+        if (w[6] == "rgb16") return run_conv<Tag, Nat, CB, gil::rgb16_image_t, 2>(w, path, info);
+#endif
         return "bad-op"; }
     return run_op<Tag, Nat, CB, false>(w, path, info); }
 // bit-aligned pixel types: no conversions exercised
